@@ -30,6 +30,9 @@ def AllowedRecover (req : Json) : Prop :=
     orc.anchorOriginOK sd.anchorOrigin = true ∧
     orc.anchorTimeOK sd.anchorFrom (anchorUntil cfg sd.anchorFrom sd.anchorUntil) = true ∧
     validateDelta cfg orc c.delta = true ∧ (c.delta.getD default).updateCommitment ≠ sd.recoveryCommitment ∧
+    -- both next commitments differ from the signing key's: the recovery one inside
+    -- `parseSignedDataForRecover` (`commitmentFresh`), the update one here (D33)
+    keyFresh H sd.key (c.delta.getD default).updateCommitment = true ∧
     revealMatches H sd.key c.revealValue = true
 
 def AllowedDeactivate (req : Json) : Prop :=
@@ -63,9 +66,9 @@ theorem recover_ok_iff (req : Json) :
     obtain ⟨c, sd, h1, h2, h3, h4, _⟩ := parseRecover_inv H cfg orc req false p h
     rcases h3 with h3 | h3
     · cases h3
-    · exact ⟨c, sd, h1, h2, h3.1, h3.2.1, h3.2.2.1, h3.2.2.2, h4⟩
-  · rintro ⟨c, sd, h1, h2, h3, h4, h5, h6, h7⟩
-    exact ⟨_, by simp [parseRecover, h1, h2, h3, h4, h5, h6, h7, guard']; rfl⟩
+    · exact ⟨c, sd, h1, h2, h3.1, h3.2.1, h3.2.2.1, h3.2.2.2.1, h3.2.2.2.2, h4⟩
+  · rintro ⟨c, sd, h1, h2, h3, h4, h5, h6, h7, h8⟩
+    exact ⟨_, by simp [parseRecover, h1, h2, h3, h4, h5, h6, h7, h8, guard']; rfl⟩
 
 theorem deactivate_ok_iff (req : Json) :
     (∃ p, parseDeactivate H cfg orc req false = some p) ↔ AllowedDeactivate H cfg orc req := by
